@@ -499,6 +499,9 @@ func c11containers(c *Ctx) {
 					if ex := c.P.SSA.FuncValue(m); ex != nil && ex.Blocks != nil {
 						bad, np := c.locksReleasedOnAllExits("C11.R9", ex)
 						c.R.Check(len(bad) == 0, "C11.R9", strings.TrimPrefix(pk.PkgPath, mod)+"."+name+".Execute", "no mutex taken around the user callback stays held when the callback panics", c.P.Pos(ex.Pos()), strings.Join(bad, "; "), bad, np)
+						// R11 (round 6): nor does content survive in an object that goes back to a pool
+						pbad, gets := c.pooledObjectsClean([]*ssa.Function{ex})
+						c.R.Check(len(pbad) == 0, "C11.R11", strings.TrimPrefix(pk.PkgPath, mod)+"."+name+".Execute#pooled", "every sync.Pool object used on the way through the callback is emptied when taken, or on every way back into the pool (not only when the callback returns normally)", c.P.Pos(ex.Pos()), fmt.Sprintf("%d pool.Get sites reachable; %s", gets, strings.Join(pbad, "; ")), pbad, gets+1)
 					}
 				}
 				switch m.Name() {
@@ -579,6 +582,13 @@ func c11containers(c *Ctx) {
 	}
 	c.R.Extra["C11.R5_containers"] = n
 	c.R.Min(rule, 5, "bulk, chunk, sqlx and mon dbInserter, stat.metricsContainer")
+	c.R.Min("C11.R11", 5, "Execute of the five in-tree containers + the positive example")
+	// the expected number of pool objects in the callbacks is zero: keep the tree's own pooled-buffer accessor as the
+	// example the lint must recognise on every run (one Get, emptied when taken)
+	if g := c.fn("C11.R11", "core/iox", "(*BufferPool).Get"); g != nil {
+		pbad, gets := c.pooledObjectsClean([]*ssa.Function{g})
+		c.R.Check(len(pbad) == 0 && gets == 1, "C11.R11", "core/iox.(*BufferPool).Get#example", "the lint recognises the tree's own pooled buffer: one sync.Pool.Get, Reset before any other use", posOf(c, g), fmt.Sprintf("%d Get sites; %s", gets, strings.Join(pbad, "; ")), pbad, 1)
+	}
 }
 
 // dependsOnFieldLoad: s derives from a load of recv.field taken before any store to it.
